@@ -174,6 +174,12 @@ func Assert(c bool, label string) {
 // Reach records that a region of interest was reached (vacuity guard).
 func Reach(label string) { mu.Lock(); Reached[label] = true; mu.Unlock() }
 
+// NewProcess marks the start of a fresh OS process: under the engine all
+// package-level state is reset, package initialisers run again and per-process
+// random sources yield new arbitrary values. Natively it does nothing (one
+// process cannot observe another's randomness).
+func NewProcess() {}
+
 // MayPanic declares that a Go panic escaping the harness after this point
 // is an accepted outcome (label says why).
 func MayPanic(label string) {}
